@@ -52,6 +52,10 @@ def c_ens(e: dict) -> str:
             f'pingers := {c_keys(e["pingers"])}; conflicts := {c_keys(e["conflicts"])} |}}')
 
 
+def c_togs(ts: Any) -> str:
+    return cq.clist(cq.cpair(c_key((t[0], t[1])), cq.cnat(t[2])) for t in sorted(ts, key=lambda t: (t[0], t[1] or '', t[2])))
+
+
 class _Proxy:
     def __init__(self, target: Any, **over: Any) -> None:
         self.__dict__['_t'] = target
@@ -61,7 +65,7 @@ class _Proxy:
         return getattr(self._t, name)
 
 
-def run_history(history: list[dict], mode: str) -> list[dict]:
+def run_history(history: list[dict], mode: str, mandatory: bool = False) -> list[dict]:
     """history: insights per step {'watched': [rid], 'indexed': [rid], 'namespaces': [ns|None], 'peer_crd': bool};
     mode: 'standalone' | 'clusterwide' | 'namespaced' (settings.peering).  Returns one snapshot per step."""
     import kopf
@@ -128,7 +132,7 @@ def run_history(history: list[dict], mode: str) -> list[dict]:
             settings = kopf.OperatorSettings()
             settings.peering.standalone = mode == 'standalone'
             settings.peering.clusterwide = mode == 'clusterwide'
-            settings.peering.mandatory = False
+            settings.peering.mandatory = bool(mandatory)
             insights = references.Insights()
             paused = aiotoggles.ToggleSet(any)
             box: dict[str, Any] = {}
@@ -141,8 +145,21 @@ def run_history(history: list[dict], mode: str) -> list[dict]:
                                               operator_indexed=aiotoggles.ToggleSet(all))
             identity = peering.Identity('c19')
             peer_rid = {'clusterwide': PEER_C, 'namespaced': PEER_N}.get(mode)
+            registry: dict[int, tuple] = {}      # id(toggle) -> (rid, ns, serial): identity taken from conflicts_found
+            keepalive_refs: list[Any] = []       # while it is there (the toggles are kept alive so that ids stay unique)
+
+            def register() -> None:
+                for k, tg in sorted(ensemble.conflicts_found.items(), key=lambda kv: (rid_of[kv[0].resource], kv[0].namespace or '')):
+                    if id(tg) not in registry:
+                        registry[id(tg)] = (rid_of[k.resource], k.namespace, len(registry))
+                        keepalive_refs.append(tg)
 
             for step in history:
+                # the script turns the conflict toggles of the current peerings on / off (a peer appears / withdraws)
+                if 'on_ns' in step:
+                    for k, tg in list(ensemble.conflicts_found.items()):
+                        loop.spawn(tg.turn_to(k.namespace in step['on_ns']))
+                    loop.settle()
                 if step.get('peer_crd') and peer_rid is not None:
                     t = loop.spawn(insights.backbone.fill(resources=[pool[peer_rid]]))
                     loop.settle()
@@ -160,6 +177,7 @@ def run_history(history: list[dict], mode: str) -> list[dict]:
                 if not t.done():
                     raise RuntimeError('adjust_tasks did not finish')
                 err = t.exception()
+                register()
                 seg = log[mark:]
                 peer_now = [peer_rid] if peer_rid is not None and any(rid_of[r] == peer_rid for r in insights.backbone.values()) else []
 
@@ -179,6 +197,13 @@ def run_history(history: list[dict], mode: str) -> list[dict]:
                     'alive': {f'{kind}|{k[0]}|{k[1]}': n for (kind, k), n in sorted(alive.items(), key=lambda x: (x[0][0], x[0][1][0], x[0][1][1] or '')) if n},
                     'task_state': {'watcher_done': sorted(str((rid_of[k.resource], k.namespace)) for k, tk in ensemble.watcher_tasks.items() if tk.done())},
                     'paused_toggles': len(paused),
+                    'mandatory': bool(mandatory),
+                    'pset': sorted((list(registry.get(id(tg), (-1, None, 999))) for tg in paused if tg is not box['pm']),
+                                   key=lambda t: (t[0], t[1] or '', t[2])),
+                    'flags': sorted((list(registry[id(tg)]) for tg in ensemble.conflicts_found.values()), key=lambda t: (t[0], t[1] or '', t[2])),
+                    'on_keys': sorted(([rid_of[k.resource], k.namespace] for k, tg in ensemble.conflicts_found.items() if tg.is_on()),
+                                      key=lambda k: (k[0], k[1] or '')),
+                    'pm_on': box['pm'].is_on(), 'is_on': paused.is_on(),
                 })
             for tk in list(ensemble.watcher_tasks.values()) + list(ensemble.peering_tasks.values()) + list(ensemble.pinging_tasks.values()):
                 tk.cancel()
@@ -223,8 +248,12 @@ def gen_history(r: Any, flavour: str) -> tuple[list[dict], str]:
             peer_crd = True
         if peer_rid in watched and not peer_crd:
             watched.discard(peer_rid)       # cannot watch a CRD that does not exist
-        hist.append({'watched': sorted(watched), 'indexed': sorted(x for x in watched if r.random() < 0.3),
-                     'namespaces': sorted(nss, key=lambda n: n or ''), 'peer_crd': peer_crd})
+        step = {'watched': sorted(watched), 'indexed': sorted(x for x in watched if r.random() < 0.3),
+                'namespaces': sorted(nss, key=lambda n: n or ''), 'peer_crd': peer_crd}
+        if hist and peer_rid is not None:
+            # which peerings report a conflict just before this adjustment (among the namespaces served so far)
+            step['on_ns'] = sorted((n for n in hist[-1]['namespaces'] + [None] if r.random() < 0.5), key=lambda n: n or '')
+        hist.append(step)
     return hist, mode
 
 
@@ -237,6 +266,11 @@ def own_served(ins: dict) -> set[tuple]:
 def monitor_step(prev: dict | None, snap: dict) -> list[dict]:
     out = []
     ins = snap['insights']
+    if snap['is_on'] and not snap['pm_on'] and not snap['on_keys']:
+        out.append({'sig': 'paused-without-blocker',
+                    'what': 'the operator is paused although no current peering reports a conflict and the peering CRD is not missing: '
+                            'no served (resource, namespace) pair can be watched',
+                    'observed': {'toggles_in_operator_paused': snap['pset'], 'current_peerings': snap['peerings'], 'on': snap['on_keys']}})
     served = own_served(ins)
     have = set(map(tuple, snap['watchers']))
     alive = {}
@@ -279,11 +313,12 @@ def ensemble_layer(ctx: fw.Ctx, header: str) -> None:
     for hi in range(n_hist):
         flavour = ['namespaced', 'clusterwide', 'mixed'][hi % 3]
         hist, mode = gen_history(r, flavour)
-        snaps = run_history(hist, mode)
-        data0 = {'layer': 'ensemble', 'history': hist, 'mode': mode}
+        mandatory = mode != 'standalone' and r.random() < 0.3
+        snaps = run_history(hist, mode, mandatory)
+        data0 = {'layer': 'ensemble', 'history': hist, 'mode': mode, 'mandatory': mandatory}
         ctx.count('history', f'{flavour}/{mode}')
         removal = False
-        prev = {'watchers': [], 'peerings': [], 'pingers': [], 'conflicts': []}
+        prev = {'watchers': [], 'peerings': [], 'pingers': [], 'conflicts': [], 'pset': [], 'flags': []}
         for si, snap in enumerate(snaps):
             ins = snap['insights']
             if si and (set(snaps[si - 1]['insights']['namespaces']) - set(ins['namespaces'])
@@ -302,7 +337,18 @@ def ensemble_layer(ctx: fw.Ctx, header: str) -> None:
                     f'keys_same (stopped i (watchers e0)) {c_keys(w_stop)} && keys_same (started (watchers (terminate i e0)) (watchers e1)) {c_keys(w_start)} && '
                     f'keys_same (stopped i (peerings e0)) {c_keys(p_stop)} && keys_same (started (peerings (terminate i e0)) (peerings e1)) {c_keys(p_start)} && '
                     f'keys_same (stopped i (pingers e0)) {c_keys(g_stop)} && keys_same (started (pingers (terminate i e0)) (pingers e1)) {c_keys(g_start)} && '
-                    f'{cq.cbool(snap["stops_before_starts"])} && {cq.cbool(snap["error"] is None)})')
+                    f'{cq.cbool(snap["stops_before_starts"])} && {cq.cbool(snap["error"] is None)} && '
+                    # the conflict toggles: conflicts_found and the content of operator_paused, old toggles by identity, new ones by key
+                    f'(let fr := {cq.cnat(1 + max([t[2] for t in prev["pset"] + prev["flags"]], default=-1))} in '
+                    f'let t1 := tadjust i {{| te := e0; flags := {c_togs(prev["flags"])}; pset := {c_togs(prev["pset"])}; fresh := fr |}} in '
+                    f'let old := fun f : tog => Nat.ltb (snd f) fr in '
+                    f'keys_same (map fst (pset t1)) {c_keys([(t[0], t[1]) for t in snap["pset"]])} && '
+                    f'Nat.eqb (List.length (pset t1)) {cq.cnat(len(snap["pset"]))} && '
+                    f'keys_same (map fst (flags t1)) {c_keys([(t[0], t[1]) for t in snap["flags"]])} && '
+                    f'togs_same (filter old (pset t1)) (filter old {c_togs(snap["pset"])}) && '
+                    f'togs_same (filter old (flags t1)) (filter old {c_togs(snap["flags"])}) && '
+                    f'Bool.eqb (peering_missing {cq.cbool(snap["mandatory"])} i) {cq.cbool(snap["pm_on"])} && '
+                    f'Bool.eqb (paused_on {cq.cbool(snap["mandatory"])} i {c_keys([tuple(k) for k in snap["on_keys"]])} t1) {cq.cbool(snap["is_on"])}))')
             data = {**data0, 'step': si, 'snapshot': {k: v for k, v in snap.items() if k != 'alive'}}
             cases_adj.append(fw.Case(term, data, diag=f'adjust {i0} {e0}'))
             for f in monitor_step(None, snap):
@@ -314,7 +360,12 @@ def ensemble_layer(ctx: fw.Ctx, header: str) -> None:
                 ctx.fail('a watcher task was started or stopped twice in one adjustment', {**data0, 'step': si},
                          observed={'stops': w_stop, 'starts': w_start}, sig='double-start-stop')
             ctx.count('adjust', 'stops+starts' if w_stop and w_start else 'stops' if w_stop else 'starts' if w_start else 'no-op')
-            prev = {k: snap[k] for k in ('watchers', 'peerings', 'pingers', 'conflicts')}
+            prev = {k: snap[k] for k in ('watchers', 'peerings', 'pingers', 'conflicts', 'pset', 'flags')}
+            if snap['is_on']:
+                ctx.count('paused', 'peering CRD missing (mandatory)' if snap['pm_on'] else 'a current peering reports a conflict')
+            if si and any(tuple(t) not in {tuple(x) for x in snap['pset']} and t in snaps[si - 1]['pset'] and
+                          [t[0], t[1]] in snaps[si - 1]['on_keys'] for t in snaps[si - 1]['pset']):
+                ctx.count('paused', 'a toggle that was ON was dropped with its key')
         if removal and len(hist) >= 3:
             ctx.nontriv(['ens', hist, mode])
         if hi < 2:
@@ -549,7 +600,133 @@ def sim_layer(ctx: fw.Ctx) -> None:
             ctx.sample({'sim': case, 'tables': [s['table'] for s in snaps]})
 
 
+# ======================================================================================
+# whole operator with namespaced peering: paused only while a CURRENT peering shows a live blocker
+# ======================================================================================
+
+def gen_peer_sims(r: Any, n_random: int) -> list[dict]:
+    out = []
+    for blocker_ns in ('ns2', 'ns1'):
+        for action in ('remove-blocker-ns', 'remove-other-ns', 'withdraw', 'nothing', 'remove-blocker-ns-then-add-ns3'):
+            out.append({'layer': 'peersim', 'blocker_ns': blocker_ns, 'action': action, 'rv0': 100, 'mandatory': False})
+    for _ in range(n_random):
+        out.append({'layer': 'peersim', 'blocker_ns': r.choice(['ns1', 'ns2']),
+                    'action': r.choice(['remove-blocker-ns', 'remove-blocker-ns', 'remove-other-ns', 'withdraw', 'remove-blocker-ns-then-add-ns3']),
+                    'rv0': r.choice([100, 5, 93, 995]), 'mandatory': r.random() < 0.5})
+    return out
+
+
+def run_peer_sim(case: dict) -> list[dict]:
+    """Namespaces ns1, ns2, each with a KopfPeering `default`; one operator (priority 10, namespaced peering) serving ns*;
+    a higher-priority peer record appears in one of them (the operator pauses); then that namespace goes away / the other
+    one goes away / the peer withdraws.  A snapshot after every phase."""
+    from kv import clock, fakeapi, sim
+    K, P = fakeapi.KOPFEXAMPLE, fakeapi.KOPFPEERING
+    W = sim.World(kinds=[K, P])
+    api = W.api
+    api.rv = int(case.get('rv0', 100))
+    out: list[dict] = []
+    try:
+        for ns in ('ns1', 'ns2'):
+            api.create(fakeapi.NAMESPACE, None, ns)
+            api.create(P, ns, 'default', {})
+        for k in (K, P):
+            api.create(fakeapi.CRD, None, f'{k.plural}.{k.group}', {'spec': {'group': k.group}})
+
+        def conf(s: Any) -> None:
+            s.scanning.disabled = False
+            s.watching.reconnect_backoff = 0.125
+            s.peering.name = 'default'
+            s.peering.priority = 10
+            s.peering.lifetime = 60
+            s.peering.mandatory = bool(case.get('mandatory', False))
+        inc = W.operator('op', [{'id': 'ev', 'kind': 'event'}], namespaces=['ns*'], configure=conf,
+                         peering={'standalone': False, 'peering_name': 'default', 'priority': 10}).start()
+
+        def snap(phase: str) -> dict:
+            nss = sorted(k[2] for k in api.objects if k[0] == fakeapi.NAMESPACE.key and fnmatch.fnmatch(k[2], 'ns*'))
+            open_ = sorted(st.namespace for st in api.streams if not st.closed and st.kind.key == K.key)
+            now = clock.vnow()
+            blockers = []
+            for ns in nss:            # the harness's own reading of "a current peering shows a live higher-priority peer"
+                obj = api.get(P, ns, 'default') or {}
+                for who, rec in (obj.get('status') or {}).items():
+                    if not isinstance(rec, dict) or who == 'blocker-self':
+                        continue
+                    if who.startswith('blocker') and int(rec.get('priority', 0)) >= 10:
+                        import datetime as _dt
+                        seen = _dt.datetime.fromisoformat(rec['lastseen'])
+                        if seen + _dt.timedelta(seconds=int(rec['lifetime'])) > now:
+                            blockers.append(ns)
+            return {'phase': phase, 'namespaces': nss, 'open_watches': open_, 'live_blockers_in_current_peerings': blockers,
+                    'operator': inc.state, 'exception': repr(inc.exception) if inc.exception else None}
+
+        W.run_for(5)
+        out.append(snap('started'))
+        bns = case['blocker_ns']
+        other = 'ns1' if bns == 'ns2' else 'ns2'
+        api.merge_edit(P, bns, 'default', {'status': {'blocker': {'priority': 100, 'lifetime': 600, 'lastseen': clock.vnow().isoformat()}}})
+        W.run_for(5)
+        out.append(snap('peer-appeared'))
+        a = case['action']
+        if a.startswith('remove-blocker-ns'):
+            api.delete(P, bns, 'default')
+            api.delete(fakeapi.NAMESPACE, None, bns)
+        elif a == 'remove-other-ns':
+            api.delete(P, other, 'default')
+            api.delete(fakeapi.NAMESPACE, None, other)
+        elif a == 'withdraw':
+            api.merge_edit(P, bns, 'default', {'status': {'blocker': None}})
+        W.run_for(8)
+        out.append(snap(a))
+        if a.endswith('then-add-ns3'):
+            api.create(fakeapi.NAMESPACE, None, 'ns3')
+            api.create(P, 'ns3', 'default', {})
+            W.run_for(8)
+            out.append(snap('ns3-added'))
+    finally:
+        W.close()
+    return out
+
+
+def monitor_peer_sim(case: dict, snaps: list[dict]) -> list[dict]:
+    fails = []
+    for s in snaps:
+        if s['operator'] != 'running':
+            fails.append({'sig': 'operator-exited', 'what': 'the operator exited during the scenario', 'observed': s})
+            break
+        if s['live_blockers_in_current_peerings']:
+            if s['open_watches']:
+                fails.append({'sig': 'watching-while-blocked', 'what': 'resources are watched although a current peering shows a live '
+                              'higher-priority peer', 'observed': s})
+            continue
+        if s['open_watches'] != s['namespaces']:
+            missing = [n for n in s['namespaces'] if n not in s['open_watches']]
+            fails.append({'sig': 'paused-without-blocker' if not s['open_watches'] else 'served-pair-unwatched',
+                          'what': 'at quiescence a served (resource, namespace) pair has no open watch although no current peering shows a '
+                                  'live higher-priority peer (the operator stays paused by a peering that is gone)',
+                          'observed': {**s, 'unwatched': missing}})
+    return fails
+
+
+def peer_sim_layer(ctx: fw.Ctx) -> None:
+    for case in gen_peer_sims(ctx.rng, ctx.scale(6, 80)):
+        snaps = run_peer_sim(case)
+        ctx.count('peersim', case['action'])
+        for s in snaps:
+            ctx.count('peersim_phase', ('blocked' if s['live_blockers_in_current_peerings'] else 'free') + ':' + ('watching' if s['open_watches'] else 'not-watching'))
+        for f in monitor_peer_sim(case, snaps):
+            ctx.fail(f['what'], case, observed=f['observed'], sig=f['sig'])
+        if case['action'].startswith('remove'):
+            ctx.nontriv(['peersim', case])
+
+
 def replay(ctx: fw.Ctx, case: dict) -> bool:
+    if case.get('layer') == 'peersim':
+        fails = monitor_peer_sim(case, run_peer_sim(case))
+        for f in fails:
+            print('  ', f['sig'], f['what'], f['observed'])
+        return bool(fails)
     if case.get('layer') == 'sim':
         fails, _ = monitor_sim(case, run_sim(case))
         for f in fails:
@@ -558,7 +735,7 @@ def replay(ctx: fw.Ctx, case: dict) -> bool:
     if case.get('layer') != 'ensemble':
         print('  (differential-only case: re-run the check)')
         return False
-    snaps = run_history(case['history'], case['mode'])
+    snaps = run_history(case['history'], case['mode'], bool(case.get('mandatory', False)))
     bad = False
     for si, snap in enumerate(snaps):
         for f in monitor_step(None, snap):
